@@ -662,4 +662,128 @@ theorem expandHalf_no_half (res : List ER) (nums : List Num) (half : List Bool) 
     simp [this]
   simp [this]
 
+/-! ### `BaseMergedUnitExtractor`: merged groups are slices -/
+
+def GroupOK (src : Str) (g : Group) : Prop := g.text = slice src g.start (g.start + g.len)
+def ItemOK (src : Str) (it : Item) : Prop := it.text = slice src it.start (it.start + it.len)
+
+theorem slice_trunc (src : Str) (s pe : Nat) : slice src s pe = slice src s (s + (pe - s)) := by
+  unfold slice
+  congr 1
+  omega
+
+theorem setAt_mem (l : List Group) (i : Nat) (g x : Group) (h : x ∈ setAt l i g) : x ∈ l ∨ x = g := by
+  unfold setAt at h
+  rw [List.mem_mapIdx] at h
+  obtain ⟨k, hk, rfl⟩ := h
+  split
+  · exact Or.inr rfl
+  · exact Or.inl (List.getElem_mem hk)
+
+theorem buildGroups_ok (src : Str) : ∀ (l : List (Item × Nat)) (prev : Option Nat) (res out : List Group),
+    (∀ p ∈ l, ItemOK src p.1) → (∀ g ∈ res, GroupOK src g) → buildGroups src l prev res = some out →
+    ∀ g ∈ out, GroupOK src g := by
+  intro l
+  induction l with
+  | nil => intro prev res out _ hres h; simp only [buildGroups, Option.some.injEq] at h; subst h; exact hres
+  | cons p rest ih =>
+    intro prev res out hl hres h
+    obtain ⟨it, g⟩ := p
+    have hit : ItemOK src it := hl (it, g) List.mem_cons_self
+    have hrest : ∀ p ∈ rest, ItemOK src p.1 := fun p hp => hl p (List.mem_cons_of_mem _ hp)
+    have hres1 : ∀ x ∈ (if prev ≠ some g then res ++ [⟨it.start, it.len, it.text, it.isNum, 1⟩] else res), GroupOK src x := by
+      intro x hx
+      split at hx
+      · rcases List.mem_append.mp hx with hx | hx
+        · exact hres x hx
+        · simp only [List.mem_singleton] at hx; subst hx; exact hit
+      · exact hres x hx
+    unfold buildGroups at h
+    simp only [] at h
+    cases rest with
+    | nil => exact ih prev _ out hrest hres1 h |> fun f => f
+    | cons q rest' =>
+      obtain ⟨nx, g2⟩ := q
+      simp only [] at h
+      split at h
+      · split at h
+        · rename_i r hr
+          refine ih _ _ out hrest ?_ h
+          intro x hx
+          rcases setAt_mem _ _ _ _ hx with hx | hx
+          · exact hres1 x hx
+          · subst hx; exact slice_trunc src _ _
+        · simp at h
+      · exact ih _ _ out hrest hres1 h
+
+theorem pureNumbers_mem (sp : Nat → Bool) (src : Str) (gapOK : Nat → Nat → Bool) (ers : List Item) (x : Item) :
+    ∀ (nums : List Item) (j : Nat), x ∈ pureNumbers sp src gapOK ers nums j → x ∈ nums := by
+  intro nums
+  induction nums with
+  | nil => intro j h; simp [pureNumbers] at h
+  | cons n ns ih =>
+    intro j h
+    unfold pureNumbers at h
+    simp only [] at h
+    split at h
+    · exact List.mem_cons_of_mem _ (ih _ h)
+    · split at h
+      · split at h
+        · rcases List.mem_cons.mp h with h | h
+          · exact h ▸ List.mem_cons_self
+          · exact List.mem_cons_of_mem _ (ih _ h)
+        · exact List.mem_cons_of_mem _ (ih _ h)
+      · exact List.mem_cons_of_mem _ (ih _ h)
+
+theorem insertItem_mem (e : Item) (l : List Item) (r : Item) : r ∈ insertItem e l ↔ r = e ∨ r ∈ l := by
+  induction l with
+  | nil => simp [insertItem]
+  | cons x xs ih =>
+    simp only [insertItem]
+    split
+    · simp
+    · simp only [List.mem_cons, ih]
+      constructor
+      · rintro (h | h | h) <;> simp [h]
+      · rintro (h | h | h) <;> simp [h]
+
+theorem sortItems_mem (l : List Item) (r : Item) : r ∈ sortItems l ↔ r ∈ l := by
+  unfold sortItems
+  have gen : ∀ (l acc : List Item), r ∈ l.foldl (fun acc e => insertItem e acc) acc ↔ r ∈ acc ∨ r ∈ l := by
+    intro l
+    induction l with
+    | nil => intro acc; simp
+    | cons x xs ih =>
+      intro acc
+      simp only [List.foldl_cons, ih, insertItem_mem, List.mem_cons]
+      constructor
+      · rintro ((h | h) | h) <;> simp [h]
+      · rintro (h | h | h) <;> simp [h]
+  simpa using gen l []
+
+theorem mergePureNumber_mem (sp : Nat → Bool) (src : Str) (gapOK : Nat → Nat → Bool) (ers nums : List Item) (x : Item)
+    (h : x ∈ mergePureNumber sp src gapOK ers nums) : x ∈ ers ∨ x ∈ nums := by
+  unfold mergePureNumber at h
+  simp only [] at h
+  rw [sortItems_mem] at h
+  have gen : ∀ (us acc : List Item), x ∈ us.foldl (fun acc x =>
+      if acc.any (fun er => decide (er.start ≤ x.start) && decide (er.start + er.len ≥ x.start)) then acc else acc ++ [x]) acc →
+      x ∈ acc ∨ x ∈ us := by
+    intro us
+    induction us with
+    | nil => intro acc h; exact Or.inl h
+    | cons u us ih =>
+      intro acc h
+      simp only [List.foldl_cons] at h
+      rcases ih _ h with h | h
+      · split at h
+        · exact Or.inl h
+        · rcases List.mem_append.mp h with h | h
+          · exact Or.inl h
+          · simp only [List.mem_singleton] at h; exact Or.inr (h ▸ List.mem_cons_self)
+      · exact Or.inr (List.mem_cons_of_mem _ h)
+  rcases gen _ _ h with h | h
+  · exact Or.inl h
+  · exact Or.inr (pureNumbers_mem sp src gapOK ers x nums 0 h)
+
 end RTV.UnitExtract
